@@ -1,8 +1,8 @@
 """C17 - the whitespace filter changes nothing but whitespace.
 
 PB: breadth-first search over walker-shaped (balanced-prefix) token streams; the product state is
-(reference stack of open elements, "previous text ended in whitespace", the real filter's `preserve`
-counter read from its suspended generator frame).  Every transition runs the real filter on the whole
+(reference stack of open elements, "previous text ended in whitespace", every bool/int local of the real
+filter's suspended generator frame: `preserve`, `after_space`, ...).  Every transition runs the real filter on the whole
 stream.  Oracle = reference transducer (below) + pass-through + idempotence.
 A second, flat pass over ARBITRARY (unbalanced) streams checks only the pass-through clauses.
 """
@@ -157,7 +157,9 @@ def impl_state(tokens):
         it = iter(Filter(src()))
         for _ in range(len(tokens)):
             next(it)
-        return it.gi_frame.f_locals.get("preserve", "n/a")
+        # every local of the suspended generator that carries state from one token to the next
+        loc = it.gi_frame.f_locals
+        return tuple(sorted((k, v) for k, v in loc.items() if isinstance(v, (bool, int)) and k != "self"))
     except Exception:
         return "unavailable"
 
